@@ -13,7 +13,8 @@ from .. import core, real, progs, values, vmops
 from .c03 import gen_tree, TCH
 
 LEAN_MODULE = 'QbeeModel.Props.C01'
-REQUIRED = ['allSpecOk_true', 'decodeTableOk_true', 'compileC_correct', 'idiv_deviates_from_qbasic', 'idiv_mod_agree_nonneg']
+REQUIRED = ['exit_do_leaves_this_loop', 'for_passes_exit_do', 'exit_for_leaves_this_loop', 'do_passes_exit_for', 'execList_stops',
+            'for_empty_range', 'while_false_skips', 'do_until_nonzero_skips'] + ['allSpecOk_true', 'decodeTableOk_true', 'compileC_correct', 'idiv_deviates_from_qbasic', 'idiv_mod_agree_nonneg']
 KIND = {'i': 'i', 'l': 'l', 's': 's', 'd': 'd', 'str': 't'}
 
 
@@ -111,6 +112,48 @@ def _expr_task(t):
         else:
             out.append((o, g, 'other ' + str(r.outcome)))
     return src, out
+
+
+def src_task(t):
+    return real.big_frame(lambda: _src_task(t))
+
+
+def _src_task(t):
+    import random
+    from .. import srcgen
+    import sys
+    seed, n = t
+    rng = random.Random(seed)
+    out = []
+    sys.setrecursionlimit(max(sys.getrecursionlimit(), 30000))      # deeply parenthesised expressions (C06: bounded nesting)
+    for _ in range(n):
+        prog = srcgen.gen(rng, depth=rng.choice([2, 3, 3]))
+        src = srcgen.to_source(prog)
+        if src.count('\n') > 60:
+            continue
+        runs = []
+        for cfg in real.CONFIGS:
+            st = real.try_compile(src, cfg[0], cfg[1])
+            if st[0] != 'ok':
+                runs.append((cfg, f'rejected {st[0]} {st[1]}'))
+                continue
+            r = real.run_bytes(st[2], max_ticks=60000)
+            if r.outcome[0] == 'timeout':
+                runs.append((cfg, None))
+                continue
+            nums = []
+            for c in r.trace:
+                if c[0] == 'terminal_print':
+                    nums += c[1].split()
+            tail = 'end' if r.outcome[0] == 'end' else ('trap ' + r.outcome[1] if r.outcome[0] == 'trap' else str(r.outcome))
+            runs.append((cfg, ' '.join(nums) + ' | ' + tail))
+        out.append((srcgen.to_request(prog), src, runs))
+    return out
+
+
+def classify_src(src):
+    ks = [k for k in ('EXIT DO', 'EXIT FOR', 'DO UNTIL', 'DO WHILE', 'LOOP UNTIL', 'LOOP WHILE', 'WHILE', 'FOR', 'SELECT CASE', 'IF') if k in src]
+    return ', '.join(ks[:4]) or 'straight line'
 
 
 def run(chk):
@@ -219,6 +262,38 @@ def run(chk):
                                                                                               'cfgs': [list(base[0]), list(rec['cfg'])]})
                 break
     dist['programs'] = nprog
+
+    # ---- (4) statement level: structured programs through the reference semantics (Model/Src.lean) and through the real
+    # compiler + machine in all six configurations
+    stasks = [(rng.randrange(1 << 30), chk.n(12, 40)) for _ in range(chk.n(16, 200))]
+    sres = real.pmap(src_task, stasks)
+    sreqs, sexp, smeta = [], [], []
+    for out in sres:
+        for req, src, runs in out:
+            sreqs.append(req)
+            sexp.append(runs)
+            smeta.append(src)
+    sgot = chk.model.ask(sreqs) if chk.model and sreqs else []
+    nsd = nfuel = 0
+    sig_kinds = {}
+    for g_, runs, src in zip(sgot, sexp, smeta):
+        if g_ == 'fuel' or g_ == 'bad-op':
+            nfuel += 1
+            if g_ == 'bad-op':
+                chk.broken.append(('harness', 'src-request-rejected', {'src': src[:200]}))
+            continue
+        sig_kinds[g_.split('|')[1].strip().split()[0]] = sig_kinds.get(g_.split('|')[1].strip().split()[0], 0) + 1
+        for cfg, real_txt in runs:
+            if real_txt is None:
+                continue
+            if ' '.join(real_txt.split()) != ' '.join(g_.split()):
+                nsd += 1
+                chk.finding('C01 a structured program does not do what the reference semantics says (' + classify_src(src) + ')',
+                            f'-O{cfg[0]}{" -g" if cfg[1] else ""}: real {real_txt[:120]!r}, reference {g_[:120]!r}',
+                            {'kind': 'src', 'src': src, 'cfg': list(cfg), 'reference': g_, 'real': real_txt})
+                break
+    chk.stats['statement-semantics'] = {'cases': len(sreqs), 'disagree': nsd, 'out_of_fuel': nfuel, 'reference_outcomes': sig_kinds}
+    dist['structured_programs'] = len(sreqs)
     chk.samples += [{'expr': tasks[i][0], 'leaves': {k: list(v) for k, v in tasks[i][1].items()}, 'reference': refs[i]} for i in range(3)]
     chk.cov['input_distribution'] = dist
     chk.cov['proved_subset'] = 'expressions (all operators x operand types, conversions, any depth); statements are validated, not proved'
@@ -238,6 +313,14 @@ def run(chk):
 
 def replay(data):
     r = data['replay']
+    if r['kind'] == 'src':
+        st = real.try_compile(r['src'], r['cfg'][0], r['cfg'][1])
+        if st[0] != 'ok':
+            print('rejected', st[:2])
+            return 0
+        rr = real.run_bytes(st[2], max_ticks=60000)
+        print('real:', real.text_of(rr.trace).split(), rr.outcome, '| reference:', r['reference'])
+        return 0
     if r['kind'] == 'expr':
         st = real.try_compile(r['src'], r['O'], r['g'])
         print(st[0])
